@@ -33,7 +33,7 @@ type recvProcOpt struct {
 	// TmpSeed != 0 pins the writer's temporary-name generator (hook
 	// fsutil.VerifSeedTempNames, build tag verif)
 	TmpSeed uint32 `json:"tmpseed,omitempty"`
-	// RejectBase != "": ReceiveOpt.Filter rejects every entry with that base name
+	// RejectBase != "": ReceiveOpt.Filter rejects every entry with one of these (comma separated) base names
 	RejectBase string `json:"rejectbase,omitempty"`
 }
 
@@ -58,7 +58,11 @@ func init() {
 		}
 		ropt := fsutil.ReceiveOpt{Merge: o.Merge, Differ: fsutil.DiffType(o.Differ)}
 		if o.RejectBase != "" {
-			ropt.Filter = func(p string, _ *types.Stat) bool { return filepath.Base(p) != o.RejectBase }
+			rej := map[string]bool{}
+			for _, b := range strings.Split(o.RejectBase, ",") {
+				rej[b] = true
+			}
+			ropt.Filter = func(p string, _ *types.Stat) bool { return !rej[filepath.Base(p)] }
 		}
 		nrec := newNotifyRec()
 		if o.Notify {
